@@ -61,7 +61,8 @@ def oracle_opt(c, rng):
     X = np.array(c['rows'], dtype=float)
     alpha = float(Fraction(c['alpha']))
     # the same (integer-valued) data in another valid form: memory layout, writability, integer dtype
-    est = pykoop.Edmd(alpha=alpha).fit(st.in_form(X, st.pick_form(rng, integral=True)), n_inputs=c['nu'], episode_feature=c['ep'])
+    from .. import lmi_common as lc
+    est = pykoop.Edmd(alpha=lc.num(rng, alpha)).fit(st.in_form(X, st.pick_form(rng, integral=True)), n_inputs=c['nu'], episode_feature=c['ep'])
     U = est.coef_.T
     Psi, Theta = np.array(c['Psi'], dtype=float), np.array(c['Theta'], dtype=float)
     base = cost(Psi, Theta, alpha, U)
